@@ -79,18 +79,20 @@ theorem backward_frames_data (h : Heap) (L : Nat) (seed : Seed) :
   · simp only [hc, ite_true, heapAfter]
     exact clearGraph_bufs _ _ _
   · simp only [hc, Bool.false_eq_true, ite_false]
-    cases hcol : collect h.fuel h L [] [] with
-    | none => rfl
+    have h1b : (startOver h L).bufs = h.bufs := startOver_bufs h L
+    generalize startOver h L = h1 at h1b ⊢
+    cases hcol : collect h1.fuel h1 L [] [] with
+    | none => simpa [heapAfter] using h1b
     | some tt =>
       obtain ⟨touched, topo⟩ := tt
       simp only
-      have hnull : (touched.foldl (fun h t => h.modT t ({ · with grad := none, viewGrad := none })) h).bufs = h.bufs :=
-        foldl_modT_bufs touched id (fun _ x => { x with grad := none, viewGrad := none }) h
+      have hnull : (touched.foldl (fun h t => h.modT t ({ · with grad := none, viewGrad := none })) h1).bufs = h.bufs :=
+        (foldl_modT_bufs touched id (fun _ x => { x with grad := none, viewGrad := none }) h1).trans h1b
       cases hs : seedVal (h.t L).data.d.shape seed with
       | error e => simpa [heapAfter] using hnull
       | ok g =>
         simp only
-        cases herr : (backwardGrads (touched.foldl (fun h t => h.modT t ({ · with grad := none, viewGrad := none })) h) L topo g).2 with
+        cases herr : (backwardGrads (touched.foldl (fun h t => h.modT t ({ · with grad := none, viewGrad := none })) h1) L topo g).2 with
         | some e =>
           simp only [heapAfter]
           rw [storeGrads_bufs]; exact hnull
